@@ -16,7 +16,7 @@ CLAIMS = {
           'that implicitly closes an unclosed loop decide nothing; unclosed loops without their own errors may carry any code. AK5/AK9 note codes and SEG1 are '
           'not checked. Group and set naming is only claimed when every header finds its enclosing loop open. An echoed value may differ from the offending '
           'value only at positions holding a separator of the acknowledgement itself (C06 forbids carrying it). Known finding: AK903 = 0 for a group that lost its GE '
-          '(pinned by the repository fixture 837miss).',
+          '(pinned by the repository fixture 837miss). A 140-character offending value (ele_LONG) must be itemised as received.',
   'technique': 'TLA+ model (ErrTree/Ack997/Ack999/AckGen) model-checked by TLC against the definition AckDef + TLC scenarios realised as real documents + '
                'TLC trace validation (T_Ack) of every recorded execution (definition clause = violation, implementation-shaped model mismatch = drift)',
  },
@@ -27,7 +27,7 @@ CLAIMS = {
           '997/999 map and is accepted unless the only complaints are element errors at echo positions. Decided by TLC (T_Ack) on every real execution; the '
           'visitor models Ack997/Ack999 are model-checked against the same clauses.',
   'note': 'Same scenario family as C05 (TLC-generated documents with 1-2 interchanges x 1-2 groups x 1-3 sets, envelope variants, stray and truncated trailers, '
-          'echo classes TERM/ELE/SUB/REP, control numbers and segment identifiers holding a separator of the acknowledgement (st02_sep, gs06_sep, segid_sep), a set without ST02 (st02_absent), and a simple element carrying the component separator of the SOURCE - read as a composite and echoed with that separator). Dates, times and the random control numbers of the acknowledgement are only compared header-to-trailer.',
+          'echo classes TERM/ELE/SUB/REP, control numbers and segment identifiers holding a separator of the acknowledgement (st02_sep, gs06_sep, segid_sep), a set without ST02 (st02_absent), and a simple element carrying the component separator of the SOURCE - read as a composite and echoed with that separator). Dates, times and the random control numbers of the acknowledgement are only compared header-to-trailer. Source ISA11 equal to a separator of the acknowledgement (isa11_sep) and ST03 holding one (st03_sep) are part of the corpus.',
   'technique': 'TLA+ model (Ack997/Ack999 over ErrTree) model-checked by TLC against AckDef/Recount + TLC scenarios realised as real documents + real re-read and '
                're-validation of every acknowledgement + TLC trace validation (T_Ack)',
  },
@@ -82,7 +82,7 @@ CLAIMS = {
           'matrix, covering all 16 writer-role = source-role coincidences, runs on the short histories; per-Write appended segments, the closed stream, its re-read by the real X12Reader and '
           'the ISA as observed in the output text (Writer!IsaFault decides whether it carries the writer\'s delimiters) are trace-validated by TLC (T_Writer), as are seeded random histories '
           'up to 18/40 writes and the repository fixtures piped reader->writer.',
-  'note': 'Duplicate control numbers supplied by the caller are copied (reader errors 025/6/23 not attributed to the writer); LX renumbering option off; trusted: TLC, output splitter/projection in lib/c11.py.',
+  'note': 'Duplicate control numbers supplied by the caller are copied (reader errors 025/6/23 not attributed to the writer); LX renumbering option off; trusted: TLC, output splitter/projection in lib/c11.py. Written content is compared in a structure-preserving canonical form (separators no data uses), so a composite and a simple value that merely contains a separator character of another delimiter set never look alike.',
   'technique': 'TLA+ refinement check (TLC) writer model vs definition + replay of TLC histories into X12Writer + TLC trace validation',
  },
  'C01': {
@@ -160,7 +160,7 @@ CLAIMS = {
           'converted text (masked only for ack date/time/control numbers and the HTML date line) and a fingerprint of watched globals are recorded as digests and trace-validated by TLC (T_Session): '
           'Obs = Fresh(doc,kind) for every call, globals unchanged, and all fresh processes of one (doc,kind) agree whatever their hash seed.',
   'note': 'A call exceeding 45 s CPU / 3 GB is reported as no_termination and ends its process. Bounded corpus and history length; stages stop at a deadline and the evidence records exhaustive=false if the exhaustive part was cut short; TLC contributes enumeration and the equality verdicts, '
-          'the leak itself is only visible by running the code; SHA-1 digests stand for texts; reuse=maps goes through a wrapper of map_if.load_map_file. Trusted: TLC, masking/projection in lib/c18_worker.py. The corpus holds one document (e834v5local) that is processed with an explicit map directory (map_path) whose 834 5010 guide differs from the packaged one: the map directory is a parameter like any other.',
+          'the leak itself is only visible by running the code; SHA-1 digests stand for texts; reuse=maps goes through a wrapper of map_if.load_map_file. Trusted: TLC, masking/projection in lib/c18_worker.py. The corpus holds one document (e834v5local) that is processed with an explicit map directory (map_path) whose 834 5010 guide differs from the packaged one: the map directory is a parameter like any other. Two 837I documents whose HI composites carry date format qualifiers (i837occ, i837span) cover state that composites could carry from one document to the next.',
   'technique': 'TLA+ model checking (TLC) + replay of TLC-enumerated call histories in fresh interpreters + TLC trace validation of the recorded observations',
  },
  'C08': {
@@ -228,7 +228,7 @@ CLAIMS = {
           'seeded random 30/40-call histories plus the README / test-suite usage are recorded and validated event by event by T_TreeEdit (TreeDef: per call the set of acceptable results).',
   'note': 'Real code runs under a per-history CPU budget (5/15 s), a per-task CPU budget (90/600 s) and a 1.5 GB address-space allowance; exceeding them is a no_termination violation (evidence key termination_guard). Alphabets of 15-25 curated paths on the small trees, <=120 sampled paths on the big ones; invalid paths, "../" from segment nodes and calls on deleted nodes only constrain "nothing changes" and the '
           'agreement of the four query methods; where "first loop instance only" and "first match overall" differ, get_value/set_value may follow either. Trusted: TLC, PathDef (C17), lib/c10_world.py. '
-          'Four defects found and repaired.',
+          'Four defects found and repaired. delete_segment is also called with data that is nearly a child\'s (one element more / fewer): only exact data deletes.',
   'technique': 'TLA+ model checking (TLC BFS + simulation) + replay of TLC histories on real trees + TLC trace validation of recorded executions',
  },
 }
